@@ -174,6 +174,16 @@ func (k *c38) binary(typ string, ptr any, h int64, lenPrefixed, deterministic bo
 		k.c.Violation(site+"/encode-error", "%s %s at height %d (%s): encode failed: %v; value %s", typ, mode, h, k.cfg, err, want)
 		return
 	}
+	// (2) semantic round trip through the height-selected decoder
+	got := newLike(ptr)
+	if err := dec(bz, got); err != nil {
+		k.c.Violation(site+"/decode-error", "%s %s at height %d (%s): decode of own encoding failed: %v; value %s bytes %x", typ, mode, h, k.cfg, err, want, bz)
+		return
+	}
+	if g := gen.Canon(got); g != want {
+		k.c.Violation(site+"/value-differs", "%s %s at height %d (%s): decode(encode(x)) != x\n got  %s\n want %s", typ, mode, h, k.cfg, g, want)
+		return
+	}
 	// (1) which codec produced the bytes
 	viaEra := newLike(ptr)
 	var eerr error
@@ -212,16 +222,6 @@ func (k *c38) binary(typ string, ptr any, h int64, lenPrefixed, deterministic bo
 			k.c.Violation(site+"/height-selects-wrong-codec", "%s %s at height %d under %s: bytes differ from the explicit %s encoder: got %x want %x",
 				typ, mode, h, k.cfg, eraName(era), bz, ref)
 		}
-	}
-	// (2) semantic round trip through the height-selected decoder
-	got := newLike(ptr)
-	if err := dec(bz, got); err != nil {
-		k.c.Violation(site+"/decode-error", "%s %s at height %d (%s): decode of own encoding failed: %v; value %s bytes %x", typ, mode, h, k.cfg, err, want, bz)
-		return
-	}
-	if g := gen.Canon(got); g != want {
-		k.c.Violation(site+"/value-differs", "%s %s at height %d (%s): decode(encode(x)) != x\n got  %s\n want %s", typ, mode, h, k.cfg, g, want)
-		return
 	}
 	// (3) byte-level fixpoint
 	bz2, err := enc(got)
